@@ -16,6 +16,67 @@ TOKEN_STEPOK = """  \\/ s.pan
      /\\ Swap_DustW(s.inp, s.burn, s.rn, s.rd, s.wIn, s.wOut)"""
 
 
+_BOUNDS = [31, 32, 53, 63, 64, 65, 97, 129]
+
+
+def _stratum(v):
+    v = abs(int(v))
+    for b in _BOUNDS:
+        if v < 2 ** b:
+            return f"<2^{b}"
+    return ">=2^129"
+
+
+def _count(d, k):
+    d[k] = d.get(k, 0) + 1
+
+
+def token_strata(rows):
+    """rows per magnitude stratum: input amount, ratio numerator (over 10^18), and the
+    mixed cells where input and multiplier each stay below 2^b while the product does not."""
+    st = {}
+    for r in rows:
+        inp, rn = int(r["inp"]), int(r["rn"])
+        mult = max(int(r["wIn"]), int(r["wOut"]))
+        _count(st, "input " + _stratum(inp))
+        _count(st, "ratio_num " + _stratum(rn))
+        for b in (53, 63, 64, 128):
+            X = 2 ** b
+            if inp < X and mult < X and mult > 1 and inp * mult >= X:
+                _count(st, f"input*10^dscale crosses 2^{b} (each below)")
+            if inp < X and rn < X and inp * rn >= X:
+                _count(st, f"input*ratio_num crosses 2^{b} (each below)")
+        if rn == 10 ** 18 and inp >= 2 ** 53 and inp % 2 == 1:
+            _count(st, "ratio 1, odd input >= 2^53")
+    return st
+
+
+def cap_strata(rows):
+    """rows per magnitude stratum of the cap max*w (per issued token), of accepted mint /
+    burn amounts, and the crossings circ+amt / tally+amt / max*w over 2^53, 2^63, 2^64
+    with every operand below the boundary."""
+    st = {}
+    for r in rows:
+        if r["op"] == "Issue" and r["ok"]:
+            m, w = int(r["max2"]), int(r["w"])
+            _count(st, "cap " + _stratum(m * w))
+            if m < 2 ** 64 and 1 < w < 2 ** 64 and m * w >= 2 ** 64:
+                _count(st, "max*w crosses 2^64 (each below)")
+            if m >= 2 ** 63:
+                _count(st, "max >= 2^63")
+        if r["op"] in ("Mint", "Burn") and r["ok"]:
+            _count(st, r["op"].lower() + " amount " + _stratum(r["amt"]))
+            for b in (53, 63, 64):
+                X = 2 ** b
+                if r["op"] == "Mint" and int(r["circ"]) < X <= int(r["circ2"]) and int(r["amt"]) < X:
+                    _count(st, f"mint circ+amt crosses 2^{b} (each below)")
+                if r["op"] == "Burn" and int(r["burned"]) < X <= int(r["burned2"]) and int(r["amt"]) < X:
+                    _count(st, f"burn tally+amt crosses 2^{b} (each below)")
+        if r["op"] == "Mint" and not r["ok"] and r["isOwner"] and r["mintable"] and int(r["circ"]) + int(r["amt"]) == int(r["max"]) * int(r["w"]) + 1:
+            _count(st, "mint cap+1 rejected, cap " + _stratum(int(r["max"]) * int(r["w"])))
+    return st
+
+
 def token_big(check, pid, tier, seed, work, rows_file=None):
     """C10: LossLessSwap on amounts up to 2^128, all scale pairs, arbitrary
     18-decimal ratios.  A recovered panic (pan) satisfies the clauses: on chain it
@@ -24,7 +85,7 @@ def token_big(check, pid, tier, seed, work, rows_file=None):
     sub = os.path.join(work, "big")
     os.makedirs(sub, exist_ok=True)
     vlib.copy_specs(sub)
-    n = {"quick": 150, "thorough": 1500}[tier]
+    n = {"quick": 40, "thorough": 1500}[tier]   # seeded rows on top of the ~120 stratified cells + corpus
     if rows_file is None:
         rows_file = os.path.join(sub, "rows.json")
         p = subprocess.run([vlib.harness_bin("tokenbig"), "rows", "-seed", str(seed), "-n", str(n), "-out", rows_file],
@@ -35,8 +96,13 @@ def token_big(check, pid, tier, seed, work, rows_file=None):
     ok, failing, wall = vlib.apalache_steps(sub, "TokenBig", "SwapClauses", TOKEN_FIELDS, rows, TOKEN_STEPOK)
     panics = sum(1 for r in rows if r["pan"])
     cov = {"big_steps": len(rows), "big_steps_ok": ok, "big_steps_panicked": panics, "big_wall_s": round(wall, 1),
-           "big_rule": "rows = real LossLessSwap calls with amounts to 2^128, scales 0..18 x 0..18, random and "
-                       "boundary 18-decimal ratios; clauses of SwapClauses.tla evaluated by Apalache 0.58 / Z3",
+           "big_rule": "rows = real LossLessSwap calls. MAGNITUDE STRATA: input amount in each of <2^31, [2^31,2^32), [2^32,2^53), "
+                       "[2^53,2^63), [2^63,2^64), [2^64,2^65), ~2^96, [2^127,2^129) x six ratio classes (1, simple, 18-digit "
+                       "residues below / above 1, numerator in [2^63,2^64), numerator >= 2^64); mixed cells where input and "
+                       "10^|dscale| (resp. the ratio numerator) each stay below 2^53 / 2^63 / 2^64 / 2^128 and the product lands "
+                       "just below / above it, scale up and scale down; low bits non-zero; plus seeded rows (amounts to 2^128, "
+                       "scales 0..18 x 0..18) and a fixed corpus; clauses of SwapClauses.tla evaluated by Apalache 0.58 / Z3",
+           "big_strata": token_strata(rows),
            "big_samples": rows[:2]}
     log(f"[big] {len(rows)} big-number rows from the real code evaluated by Apalache: {ok} ok, {len(failing)} failing, "
         f"{panics} recovered panics ({wall:.0f}s)")
@@ -79,74 +145,150 @@ def token_big_replay(check, pid, path, work, seed):
     return 0
 
 
-CS_FIELDS = [("kind", "Str"), ("S", "Int"), ("T", "Int"), ("L", "Int"), ("S2", "Int"), ("T2", "Int"), ("L2", "Int"),
-             ("rin", "Int"), ("rout", "Int"), ("paid", "Int"), ("recv", "Int"), ("fn", "Int"), ("fd", "Int"),
-             ("isBuy", "Bool")]
-CS_STEPOK = """  /\\ (s.kind = "share" => ShareValueW(s.S, s.T, s.L, s.S2, s.T2, s.L2))
-  /\\ (s.kind = "leg" =>
+# ---------------------------------------------------------------------------
+# Coinswap magnitude tier (C01 pool rows, C02 settlement rows).  One harness run
+# (harness-coinswapbig rows) drives the real chain; per history ONE magnitude
+# stratum supplies the pool reserves (hence the share supply) AND every message
+# amount, each scripted operation on a freshly created pool.
+CS_FIELDS = [("S", "Int"), ("T", "Int"), ("L", "Int"), ("S2", "Int"), ("T2", "Int"), ("L2", "Int"),
+             ("hasLeg", "Bool"), ("rin", "Int"), ("rout", "Int"), ("paid", "Int"), ("recv", "Int"),
+             ("fn", "Int"), ("fd", "Int"), ("isBuy", "Bool")]
+CS_STEPOK = """  /\\ ShareValueW(s.S, s.T, s.L, s.S2, s.T2, s.L2)
+  /\\ (s.hasLeg =>
         /\\ s.paid >= 0 /\\ s.recv >= 0 /\\ s.recv < s.rout
         /\\ LegRuleW(s.rin, s.rout, s.paid, s.recv, s.fn, s.fd)
         /\\ (s.isBuy => LegOutTightW(s.rin, s.rout, s.paid, s.recv, s.fn, s.fd))
         /\\ (~s.isBuy => LegInMaxW(s.rin, s.rout, s.paid, s.recv, s.fn, s.fd)))"""
 
+CSS_FIELDS = [("name", "Str"), ("isBuy", "Bool"), ("routed", "Bool"), ("created", "Bool"),
+              ("a1", "Int"), ("a2", "Int"), ("m1", "Int"), ("m2", "Int"), ("now", "Int"), ("deadline", "Int"),
+              ("dSndA", "Int"), ("dSndB", "Int"), ("dSndLpt", "Int"), ("dRcpOut", "Int"),
+              ("poolPaid", "Int"), ("poolRecv", "Int"), ("escStd", "Int"), ("escTok", "Int"), ("dSupLpt", "Int"),
+              ("dSndStdX", "Int"), ("dRcpStdX", "Int"), ("fee", "Int"), ("taxNum", "Int"), ("taxDen", "Int"),
+              ("dSupFee", "Int"), ("dFeepool", "Int"), ("others", "Int"), ("supOthers", "Int"), ("consvBad", "Int")]
+# the C02 clauses, per message kind, on the observed deltas (CoinswapSettleClauses.tla);
+# frame / supply / conservation: no other cell, no other supply changed, totals = supplies
+CSS_STEPOK = """  /\\ (s.name # "Donate" => s.others = 0) /\\ s.supOthers = 0 /\\ s.consvBad = 0
+  /\\ (s.name = "Swap" =>
+        /\\ SwapSenderW(s.dSndA, s.poolPaid)
+        /\\ SwapRecipientW(s.dRcpOut, s.poolRecv)
+        /\\ SwapBoundsW(s.isBuy, s.a1, s.a2, s.poolPaid, s.poolRecv, s.now, s.deadline)
+        /\\ (s.routed => s.dSndStdX = 0 /\\ s.dRcpStdX = 0))
+  /\\ (s.name = "Add" =>
+        /\\ AddSettleW(s.a1, s.a2, s.m1, s.dSndA, s.dSndB, s.dSndLpt, s.dSupLpt, s.escStd, s.escTok)
+        /\\ (s.created => CreationFeeW(s.fee, s.taxNum, s.taxDen, s.dSupFee, s.dFeepool)))
+  /\\ (s.name = "AddUni" => AddUniSettleW(s.a1, s.m1, s.dSndA, s.escTok, s.dSndLpt, s.dSupLpt))
+  /\\ (s.name = "Remove" =>
+        RemoveSettleW(s.a1, s.m1, s.m2, s.dSndLpt, s.dSupLpt, s.dSndA, s.dSndB, s.escStd, s.escTok))
+  /\\ (s.name = "RemUni" => RemUniSettleW(s.a1, s.m1, s.dSndLpt, s.dSupLpt, s.dSndA, s.escTok))"""
 
-def coinswap_big(check, pid, tier, seed, work, rows_file=None):
-    """C01: the real coinswap module driven through the ABCI path with reserves,
-    shares and trades from 1 to ~2^120; per message the pool's (S, T, L) before and
-    after, per swap the leg as seen from the pool."""
+CS_RULE = ("rows = successful coinswap messages executed on the real chain (ABCI path); per history ONE magnitude stratum "
+           "supplies the pool reserves (hence the share supply) and every message amount, and every operation kind "
+           "(two-sided add into an existing pool, remove, one-sided add/remove in both denoms, sell/buy orders in both "
+           "directions, routed sell/buy, donation) runs on its own freshly created pool, followed by a sequel on the "
+           "drifted pool; strata: <2^31, [2^31,2^32), [2^32,2^53), [2^53,2^63), [2^63,2^64), [2^64,2^65), ~2^96, "
+           "[2^127,2^129), mixed (each operand < 2^64 / 2^63 / 2^128 but products or sums beyond), deep pools with "
+           "everyday amounts, shallow pools with huge amounts; values uniform inside the stratum (low bits non-zero); "
+           "18-decimal fees; rejected messages (incl. recovered 256-bit overflow panics) are counted, not evaluated")
+
+
+def _cs_rows(tier, seed, work, sub, cfg=""):
     vlib.build_harness("coinswapbig")
-    sub = os.path.join(work, "big")
     os.makedirs(sub, exist_ok=True)
     vlib.copy_specs(sub)
-    n, ln = {"quick": (8, 30), "thorough": (60, 40)}[tier]
-    if rows_file is None:
-        rows_file = os.path.join(sub, "csrows.json")
-        p = subprocess.run([vlib.harness_bin("coinswapbig"), "rows", "-seed", str(seed), "-n", str(n), "-len", str(ln),
-                            "-out", rows_file], capture_output=True, text=True, timeout=1200)
-        if p.returncode != 0:
-            raise Inconclusive("harness-coinswapbig failed: " + p.stderr[-1000:])
-    rows = json.load(open(rows_file))
-    ok, failing, wall = vlib.apalache_steps(sub, "CoinswapBig", "CoinswapClauses", CS_FIELDS, rows, CS_STEPOK)
-    legs = sum(1 for r in rows if r["kind"] == "leg")
-    cov = {"big_steps": len(rows), "big_steps_ok": ok, "big_legs": legs, "big_wall_s": round(wall, 1),
-           "big_rule": "rows = successful coinswap messages executed on the real chain with reserves/shares/trades up to "
-                       "~2^120 and 18-decimal fees; share-value row per message, leg row per swap; clauses of "
-                       "CoinswapClauses.tla evaluated by Apalache 0.58 / Z3",
-           "big_samples": rows[:2]}
-    log(f"[big] {len(rows)} big-number rows ({legs} swap legs) from the real chain evaluated by Apalache: {ok} ok, "
-        f"{len(failing)} failing ({wall:.0f}s)")
+    n = {"quick": 1, "thorough": 6}[tier]
+    rows_file = os.path.join(sub, "csrows.json")
+    p = subprocess.run([vlib.harness_bin("coinswapbig"), "rows", "-seed", str(seed), "-n", str(n), "-out", rows_file,
+                        "-cfg", cfg], capture_output=True, text=True, timeout=1800)
+    if p.returncode != 0:
+        raise Inconclusive("harness-coinswapbig failed: " + p.stderr[-1000:])
+    return json.load(open(rows_file)), {"seed": seed, "n": n, "cfg": cfg}
+
+
+def _cs_strata(rows, kind):
+    out = {}
+    for r in rows:
+        if r["kind"] == kind:
+            d = out.setdefault(r["stratum"], {"rows": 0, "all_operands_in_stratum": 0})
+            d["rows"] += 1
+            d["all_operands_in_stratum"] += 1 if r.get("pure") else 0
+    for r in rows:
+        if r["kind"] == "rejected":
+            d = out.setdefault(r["stratum"], {"rows": 0, "all_operands_in_stratum": 0})
+            d["rejected"] = d.get("rejected", 0) + 1
+            d["panics"] = d.get("panics", 0) + (1 if r.get("panic") else 0)
+    return out
+
+
+def _cs_eval(pid, tier, seed, work, kind, name, extends, fields, stepok, meta, allrows, describe):
+    sub = os.path.join(work, "big-" + kind)
+    rows = [r for r in allrows if r["kind"] == kind]
+    ok, failing, wall = vlib.apalache_steps(sub, name, extends, fields, rows, stepok)
+    ops = {}
+    for r in rows:
+        ops[r["op"]] = ops.get(r["op"], 0) + 1
+    cov = {"big_steps": len(rows), "big_steps_ok": ok, "big_wall_s": round(wall, 1), "big_rule": CS_RULE,
+           "big_strata": _cs_strata(allrows, kind), "big_ops": ops, "big_samples": rows[:2]}
+    log(f"[big] {len(rows)} {kind} rows in {len(cov['big_strata'])} magnitude strata from the real chain evaluated by "
+        f"Apalache: {ok} ok, {len(failing)} failing ({wall:.0f}s)")
     viol = []
     if failing:
         os.makedirs(os.path.join(ROOT, "replays"), exist_ok=True)
         path = os.path.join(ROOT, "replays", f"{pid}-{tier}-seed{seed}.bigrows.json")
-        json.dump({"seed": seed, "n": n, "len": ln, "failing": [rows[i] for i in failing]}, open(path, "w"), indent=1)
-        r = rows[failing[0]]
-        viol.append((path, f"big-number row violates the C01 clauses: {r['op']} ({r['kind']}) history {r['hist']} step {r['step']}: "
-                           f"S,T,L {r['S']},{r['T']},{r['L']} -> {r['S2']},{r['T2']},{r['L2']}; leg rin={r['rin']} rout={r['rout']} "
-                           f"paid={r['paid']} recv={r['recv']} fee={r['fn']}/1e18"))
+        json.dump(dict(meta, kind=kind, failing=[rows[i] for i in failing]), open(path, "w"), indent=1)
+        viol.append((path, describe(rows[failing[0]])))
     return viol, cov
+
+
+def _cs_pool_text(r):
+    return (f"big-number row violates the C01 clauses: {r['op']} in stratum {r['stratum']} (history {r['hist']} step "
+            f"{r['step']}): S,T,L {r['S']},{r['T']},{r['L']} -> {r['S2']},{r['T2']},{r['L2']}; leg rin={r['rin']} "
+            f"rout={r['rout']} paid={r['paid']} recv={r['recv']} fee={r['fn']}/1e18")
+
+
+def _cs_settle_text(r):
+    return (f"big-number settlement row violates the C02 clauses: {r['op']} in stratum {r['stratum']} (history {r['hist']} "
+            f"step {r['step']}): amounts {r['a1']},{r['a2']} bounds {r['m1']},{r['m2']}; sender {r['dSndA']},{r['dSndB']} "
+            f"lpt {r['dSndLpt']} (supply {r['dSupLpt']}); recipient {r['dRcpOut']}; pool paid/recv {r['poolPaid']},"
+            f"{r['poolRecv']} escrow {r['escStd']},{r['escTok']}; other cells {r['others']}, other supplies "
+            f"{r['supOthers']}, unbalanced denoms {r['consvBad']}")
+
+
+def coinswap_big(check, pid, tier, seed, work):
+    """C01: share value and leg clauses on pool rows of every magnitude stratum."""
+    sub = os.path.join(work, "big-pool")
+    rows, meta = _cs_rows(tier, seed, work, sub)
+    return _cs_eval(pid, tier, seed, work, "pool", "CoinswapBig", "CoinswapClauses", CS_FIELDS, CS_STEPOK, meta, rows,
+                    _cs_pool_text)
+
+
+def coinswap_settle_big(check, pid, tier, seed, work):
+    """C02: settlement clauses on the observed balance deltas of every magnitude stratum."""
+    sub = os.path.join(work, "big-settle")
+    rows, meta = _cs_rows(tier, seed, work, sub, cfg="createrows=3")
+    return _cs_eval(pid, tier, seed, work, "settle", "CoinswapSettleBig", "CoinswapSettleClauses", CSS_FIELDS,
+                    CSS_STEPOK, meta, rows, _cs_settle_text)
 
 
 def coinswap_big_replay(check, pid, path, work, seed):
     """Re-run the recorded driver run (same seed and sizes) on the real chain and evaluate again."""
     meta = json.load(open(path))
-    vlib.build_harness("coinswapbig")
+    kind = meta.get("kind", "pool")
     sub = os.path.join(work, "bigreplay")
-    os.makedirs(sub, exist_ok=True)
-    vlib.copy_specs(sub)
-    rows_file = os.path.join(sub, "csrows.json")
-    p = subprocess.run([vlib.harness_bin("coinswapbig"), "rows", "-seed", str(meta["seed"]), "-n", str(meta["n"]),
-                        "-len", str(meta["len"]), "-out", rows_file], capture_output=True, text=True, timeout=1200)
-    if p.returncode != 0:
-        raise Inconclusive("harness-coinswapbig failed: " + p.stderr[-1000:])
-    rows = json.load(open(rows_file))
-    ok, failing, wall = vlib.apalache_steps(sub, "CoinswapBig", "CoinswapClauses", CS_FIELDS, rows, CS_STEPOK)
+    tier = "quick" if meta["n"] <= 1 else "thorough"
+    rows, _ = _cs_rows(tier, meta["seed"], work, sub, cfg=meta.get("cfg", ""))
+    rows = [r for r in rows if r["kind"] == kind]
+    if kind == "pool":
+        ok, failing, wall = vlib.apalache_steps(sub, "CoinswapBig", "CoinswapClauses", CS_FIELDS, rows, CS_STEPOK)
+    else:
+        ok, failing, wall = vlib.apalache_steps(sub, "CoinswapSettleBig", "CoinswapSettleClauses", CSS_FIELDS, rows,
+                                                CSS_STEPOK)
     if failing:
         r = rows[failing[0]]
-        log(f"replay: {r['op']} history {r['hist']} step {r['step']} violates the C01 clauses")
+        log(f"replay: {r['op']} in stratum {r['stratum']} (history {r['hist']} step {r['step']}) violates the {pid} clauses")
         print(f"VIOLATION property={pid} replay={path}", flush=True)
         return 1
-    log("replay: all rows satisfy the C01 clauses")
+    log(f"replay: all rows satisfy the {pid} clauses")
     return 0
 
 
@@ -183,6 +325,9 @@ if "C01" in props.PROPS:
     props.PROPS["C01"].post.append(coinswap_lemmas)
     props.PROPS["C01"].post.append(coinswap_big)
     props.PROPS["C01"].big_replay = coinswap_big_replay
+if "C02" in props.PROPS:
+    props.PROPS["C02"].post.append(coinswap_settle_big)
+    props.PROPS["C02"].big_replay = coinswap_big_replay
 
 def token_lemmas(check, pid, tier, seed, work):
     """Unbounded lemma for the (repaired) LossLessSwap in exact rational arithmetic."""
@@ -229,7 +374,7 @@ CAP_STEPOK = """  /\\ CapKeptW(s.circ, s.max, s.circ2, s.max2, s.w)
   /\\ ((s.circ2 > s.circ) => (s.ok /\\ s.op \\in {"Mint", "Issue"}))
   /\\ ((s.max2 # s.max) => (s.ok /\\ s.op = "Edit"))
   /\\ ((~s.ok) => (s.circ2 = s.circ /\\ s.burned2 = s.burned /\\ s.bal2 = s.bal))"""
-CAP_SIZES = {"quick": (4, 6), "thorough": (24, 30)}
+CAP_SIZES = {"quick": (7, 4), "thorough": (22, 30)}   # 2 tokens per history; the first 14 specs hold every stratum
 
 
 def _cap_rows(seed, n, ln, out):
@@ -264,7 +409,13 @@ def token_cap_big(check, pid, tier, seed, work):
                        "real chain with maxima up to MaxUint64 main units, scales 0/1/6/18, amounts up to MaxUint64*10^18; one "
                        "row per message with maximum, circulating amount, burned tally and sender balance before/after; "
                        "clauses of CapClauses.tla (the operators of C09_Cap / C09_Burned) and the authority / rejection "
-                       "conditions evaluated by Apalache 0.58 / Z3",
+                       "conditions evaluated by Apalache 0.58 / Z3. MAGNITUDE STRATA: the cap max*w of the issued tokens is "
+                       "placed in each of <2^31, [2^31,2^32), [2^32,2^53), [2^53,2^63), [2^63,2^64), [2^64,2^65), ~2^84..2^96 "
+                       "(max*w < 2^124 for a uint64 maximum) incl. max >= 2^63, max and w each below 2^64 with max*w above, caps "
+                       "just below / above 2^53 and 2^64; per token: half the room twice (circ+amt crossing the boundary, each "
+                       "below), room+1, exactly to the cap, fractional burns, nearly everything burned in two steps (tally+amt "
+                       "crossing), minted again; low bits non-zero",
+           "big_strata": cap_strata(rows),
            "big_samples": rows[:2]}
     log(f"[big] {len(rows)} big-number rows ({atcap} mints exactly to the cap) from the real chain evaluated by Apalache: "
         f"{ok} ok, {len(failing)} failing ({wall:.0f}s)")
@@ -297,6 +448,249 @@ def token_cap_big_replay(check, pid, path, work, seed):
 if "C09" in props.PROPS:
     props.PROPS["C09"].post.append(token_cap_big)
     props.PROPS["C09"].big_replay = token_cap_big_replay
+
+# ---------------------------------------------------------------------------
+# C17 magnitude tier: the oracle module on the real chain (harness-oracle rows)
+# with feeds of every aggregate, 1..4 providers, every threshold, and answers
+# from every magnitude stratum; the OracleClauses.tla operators Oracle.tla's
+# C17_Aggregate is made of.  Integers in units of 10^-8.
+ORA_FIELDS = [("kind", "Str"), ("n", "Int"), ("v1", "Int"), ("v2", "Int"), ("v3", "Int"), ("v4", "Int"),
+              ("stored", "Int"), ("fmt", "Bool")]
+# tolerance of the average (twice it): half a unit per answer for the 8-decimal rounding, doubled, plus
+# 4 * 2^-50 of the sum of the absolute values for float64 summation and division (OracleClauses.tla)
+ORA_STEPOK = """  /\\ s.fmt /\\ s.n >= 1 /\\ s.n <= 4
+  /\\ (s.kind = "avg" =>
+        AvgW(SumW(s.v1, s.v2, s.v3, s.v4, s.n), s.n, s.stored,
+             TimesW(2, s.n) + (8 * AbsSumW(s.v1, s.v2, s.v3, s.v4, s.n)) \\div 1125899906842624))
+  /\\ (s.kind = "max" => MaxW(MaxOfW(s.v1, s.v2, s.v3, s.v4, s.n), s.stored, 0))
+  /\\ (s.kind = "min" => MinW(MinOfW(s.v1, s.v2, s.v3, s.v4, s.n), s.stored, 0))"""
+ORA_SIZES = {"quick": (2, 14), "thorough": (8, 30)}
+ORA_RULE = ("rows = feed values stored by the real oracle module (ABCI path; feeds avg/max/min x 1..4 providers x every "
+            "threshold; answers submitted as real MsgRespondService transactions, some providers silent or failing), one row "
+            "per stored value: aggregate, the valid answers and the stored decimal as integers in units of 10^-8. Answers are "
+            "exactly representable float64 numbers with <= 8 fractional digits, drawn per batch from ONE stratum so that all "
+            "operands share it: <2^31, [2^31,2^32), [2^32,2^53) (whole and fractional), [2^53,2^63), [2^63,2^64), [2^64,2^65), "
+            "~2^96, [2^127,2^129) (whole, full 53-bit mantissas), sets whose members are < 2^k while the sum is >= 2^k for "
+            "k = 53, 63, 64, 128, and k*10^18 (wei); signs all +, all -, mixed, and cancelling. Clauses of OracleClauses.tla "
+            "evaluated by Apalache / Z3: avg |stored*n - sum| <= n + 4*2^-50*sum|v| (8-decimal rounding + float64 "
+            "summation/division error), max/min exact.")
+
+
+def _ora_rows(seed, n, ln, out):
+    p = subprocess.run([vlib.harness_bin("oracle"), "rows", "-seed", str(seed), "-n", str(n), "-len", str(ln), "-out", out],
+                       capture_output=True, text=True, timeout=1200)
+    if p.returncode != 0:
+        raise Inconclusive("harness-oracle rows failed: " + (p.stdout + p.stderr)[-1500:])
+    return json.load(open(out))
+
+
+def _ora_text(r):
+    return (f"feed {r['feed']} ({r['kind']}, {r['asked']} providers, threshold {r['thr']}; history {r['hist']} step {r['step']}, "
+            f"stratum {r['stratum']}): valid answers {r['answers']} stored as {r['raw']}")
+
+
+def _ora_eval(sub, rows, chunks=4):
+    """apalache_steps on `chunks` slices of the rows in parallel (own directories)."""
+    from concurrent.futures import ThreadPoolExecutor
+    t0 = time.time()
+    size = max(1, (len(rows) + chunks - 1) // chunks)
+    parts = [(k, rows[k:k + size]) for k in range(0, len(rows), size)]
+
+    def one(part):
+        k, rs = part
+        d = os.path.join(sub, f"chunk{k}")
+        os.makedirs(d, exist_ok=True)
+        vlib.copy_specs(d)
+        ok, failing, _ = vlib.apalache_steps(d, "OracleBig", "OracleClauses", ORA_FIELDS, rs, ORA_STEPOK)
+        return [k + i for i in failing]
+
+    failing = []
+    with ThreadPoolExecutor(max_workers=chunks) as ex:
+        for f in ex.map(one, parts):
+            failing += f
+    failing.sort()
+    return len(rows) - len(failing), failing, time.time() - t0
+
+
+def oracle_big(check, pid, tier, seed, work):
+    """C17_Aggregate at every magnitude: see ORA_RULE."""
+    vlib.build_harness("oracle")
+    sub = os.path.join(work, "orabig")
+    os.makedirs(sub, exist_ok=True)
+    vlib.copy_specs(sub)
+    n, ln = ORA_SIZES[tier]
+    rows = _ora_rows(seed, n, ln, os.path.join(sub, "orarows.json"))
+    ok, failing, wall = _ora_eval(sub, rows)
+    strata, kinds = {}, {}
+    for r in rows:
+        k = r["stratum"].split(" ")[0]
+        strata[k] = strata.get(k, 0) + 1
+        kinds[r["kind"]] = kinds.get(r["kind"], 0) + 1
+    cov = {"big_steps": len(rows), "big_steps_ok": ok, "big_wall_s": round(wall, 1), "big_rule": ORA_RULE,
+           "big_strata": strata, "big_kinds": kinds,
+           "big_signs": {k: sum(1 for r in rows if r["stratum"].split(" ")[-1] == k) for k in ("+", "-", "+-", "cancel")},
+           "big_samples": rows[:2]}
+    log(f"[big] {len(rows)} big-number rows (stored feed values of the real chain, {len(strata)} magnitude strata) evaluated "
+        f"by Apalache: {ok} ok, {len(failing)} failing ({wall:.0f}s)")
+    viol = []
+    if failing:
+        os.makedirs(os.path.join(ROOT, "replays"), exist_ok=True)
+        path = os.path.join(ROOT, "replays", f"{pid}-{tier}-seed{seed}.bigrows.json")
+        json.dump({"seed": seed, "n": n, "len": ln, "failing": [rows[i] for i in failing]}, open(path, "w"), indent=1)
+        viol.append((path, "big-number row violates C17_Aggregate (OracleClauses): " + _ora_text(rows[failing[0]])))
+    return viol, cov
+
+
+def oracle_big_replay(check, pid, path, work, seed):
+    """Re-run the recorded driver run (same seed and sizes) on the real chain and evaluate again."""
+    meta = json.load(open(path))
+    vlib.build_harness("oracle")
+    sub = os.path.join(work, "orareplay")
+    os.makedirs(sub, exist_ok=True)
+    vlib.copy_specs(sub)
+    rows = _ora_rows(meta["seed"], meta["n"], meta["len"], os.path.join(sub, "orarows.json"))
+    ok, failing, wall = _ora_eval(sub, rows)
+    if failing:
+        log("replay: " + _ora_text(rows[failing[0]]) + " violates C17_Aggregate")
+        print(f"VIOLATION property={pid} replay={path}", flush=True)
+        return 1
+    log("replay: all rows satisfy C17_Aggregate")
+    return 0
+
+
+if "C17" in props.PROPS:
+    props.PROPS["C17"].post.append(oracle_big)
+    props.PROPS["C17"].big_replay = oracle_big_replay
+
+
+# ---------------------------------------------------------------------------
+# C07 magnitude tier: the service module on the real chain with prices, deposits,
+# fee caps and balances in every magnitude stratum up to ~2^129 and tax / slash
+# fractions across their valid range (harness/cmd/servicebig); the
+# ServiceClauses.tla operators Service.tla's C07 clauses are made of.
+_SVC_ESC = [("depBal", "Int"), ("depSum", "Int"), ("reqBal", "Int"), ("liab", "Int"), ("f4", "Int")]
+_SVC_ESC_OK = """  /\\ EscrowW(s.depBal, s.depSum)
+  /\\ EscrowW(s.reqBal, s.liab + s.f4)
+"""
+# one generated module per group of row kinds (a record of all 30 fields per row makes Apalache ~10x slower)
+SVC_GROUPS = [
+    (("answer",), ["fee", "tn", "td", "tax", "dReq", "dEarn", "dOwn"],
+     """  /\\ TaxW(s.fee, s.tn, s.td, s.tax, s.dEarn) /\\ s.dOwn = s.dEarn
+  /\\ AnswerMoveW(s.tax, s.tax, s.dReq)"""),
+    (("slash", "block"), ["dep", "dep2", "sn", "sd", "k", "slashed", "dDepEsc", "dFeep"],
+     """  /\\ ((s.kind = "slash" /\\ s.k = 1) => SlashW(s.dep, s.sn, s.sd, s.dep2))
+  /\\ (s.kind = "block" => SlashMoveW(s.slashed, s.dDepEsc, s.dFeep))"""),
+    (("settle",), ["delta", "refunds", "charges", "over"],
+     """  /\\ ChargeF4W(s.delta, s.refunds, s.charges, s.over)"""),
+    (("withdraw", "deposit", "refunddep"), ["paid", "own", "own2", "dReq", "dTo", "amt", "dep", "dep2", "dOwner", "dDepEsc"],
+     """  /\\ (s.kind = "withdraw" => (WithdrawW(s.paid, s.own, s.own2, s.dReq) /\\ s.dTo = s.paid))
+  /\\ (s.kind = "deposit" => DepositMoveW(s.amt, s.dep, s.dep2, s.dOwner, s.dDepEsc))
+  /\\ (s.kind = "refunddep" => RefundDepositW(s.dep, s.dep2, s.dOwner, s.dDepEsc))"""),
+]
+SVC_SIZES = {"quick": (11, 2), "thorough": (66, 4)}   # histories (a multiple of the 11 strata), rounds per history
+
+
+def _svc_rows(seed, n, ln, out):
+    p = subprocess.run([vlib.harness_bin("servicebig"), "rows", "-seed", str(seed), "-n", str(n), "-len", str(ln), "-out", out],
+                       capture_output=True, text=True, timeout=1200)
+    if p.returncode != 0:
+        raise Inconclusive("harness-servicebig failed: " + p.stderr[-1000:])
+    return json.load(open(out))
+
+
+def _svc_text(r):
+    if r["kind"] == "answer":
+        return (f"Respond (history {r['hist']} step {r['step']}, stratum {r['stratum']}): fee {r['fee']}, tax rate {r['tn']}e-18, "
+                f"fee pool +{r['tax']}, provider tally +{r['dEarn']}, request escrow {r['dReq']}")
+    if r["kind"] == "slash":
+        return (f"EndBlock expiry (history {r['hist']} step {r['step']}, stratum {r['stratum']}): binding deposit {r['dep']} -> {r['dep2']} "
+                f"after {r['k']} expired request(s), slash fraction {r['sn']}e-18 (floor(deposit*fraction) = "
+                f"{int(r['dep']) * int(r['sn']) // int(r['sd'])}, moved {int(r['dep']) - int(r['dep2'])})")
+    if r["kind"] == "block":
+        return (f"EndBlock expiry (history {r['hist']} step {r['step']}, stratum {r['stratum']}): deposit {r['dep']} -> {r['dep2']}, "
+                f"slash fraction {r['sn']}e-18, slashed {r['slashed']}, deposit escrow {r['dDepEsc']}, fee pool +{r['dFeep']}")
+    return f"{r['op']} ({r['kind']}, history {r['hist']} step {r['step']}, stratum {r['stratum']}): " + \
+        ", ".join(f"{k}={v}" for k, v in r.items() if v not in ("0", 0) and k not in ("kind", "op", "hist", "step", "stratum"))
+
+
+def _svc_eval(sub, rows):
+    """Every row is evaluated (escrow identities + the clauses of its kind); returns (ok, failing indexes, wall)."""
+    failing, wall = [], 0.0
+    for kinds, fields, stepok in SVC_GROUPS:
+        idx = [i for i, r in enumerate(rows) if r["kind"] in kinds]
+        if not idx:
+            continue
+        fl = [("kind", "Str")] + [(f, "Int") for f in fields] + _SVC_ESC
+        _, bad, w = vlib.apalache_steps(sub, "ServiceBig_" + kinds[0], "ServiceClauses", fl, [rows[i] for i in idx],
+                                        _SVC_ESC_OK + stepok)
+        failing += [idx[b] for b in bad]
+        wall += w
+    failing.sort()
+    return len(rows) - len(failing), failing, wall
+
+
+def service_big(check, pid, tier, seed, work):
+    """C07: bind / top up / call / end-block batch / respond / expire (slash + refund) / withdraw / refund-deposit on the
+    real chain; all operands of a history drawn from one magnitude stratum."""
+    vlib.build_harness("servicebig")
+    sub = os.path.join(work, "svcbig")
+    os.makedirs(sub, exist_ok=True)
+    vlib.copy_specs(sub)
+    n, ln = SVC_SIZES[tier]
+    rows = _svc_rows(seed, n, ln, os.path.join(sub, "svcrows.json"))
+    ok, failing, wall = _svc_eval(sub, rows)
+    strata, kinds = {}, {}
+    for r in rows:
+        strata[r["stratum"]] = strata.get(r["stratum"], 0) + 1
+        kinds[r["kind"]] = kinds.get(r["kind"], 0) + 1
+    cov = {"big_steps": len(rows), "big_steps_ok": ok, "big_wall_s": round(wall, 1), "big_strata": strata, "big_kinds": kinds,
+           "big_rule": "rows = service messages and end-blocks executed on the real chain (bind, update/enable with deposit, "
+                       "call, end-block batch, respond, expiry with slash and refund, withdraw, disable + refund deposit); in "
+                       "history i ALL operands (prices, deposits, top-ups) are drawn from stratum (i + seed) mod 11 of "
+                       "<2^31, [2^31,2^32), [2^32,2^53), [2^53,2^63), [2^63,2^64), [2^64,2^65), ~2^96, [2^127,2^129) and the "
+                       "mixed strata [2^62,2^63), [2^63,2^64), [2^127,2^128) whose sums (two fees charged together, deposit + "
+                       "top-up, accumulated tallies and escrows) and products with the 18-decimal rates cross the word size; "
+                       "low 16 bits never all zero; tax rates 0, 1e-18, 0.05, 0.1, 1/3, 0.5, 0.999999999999999999 and slash "
+                       "fractions 0, 1e-18, 0.001, 1/3, 0.5, 0.999999999999999999, 1 cycle per round; provider p2 always "
+                       "carries a time discount (F4 excused exactly: ChargeF4W / escrow + recorded overcharge). One row per "
+                       "answered request (tax split), per slashed binding, per end-block (slash movement), per consumer "
+                       "settlement, per withdrawal, per deposit move, each with the two escrow identities; clauses of "
+                       "ServiceClauses.tla (the operators of Service.tla's C07 clauses) evaluated by Apalache 0.58 / Z3",
+           "big_samples": rows[:2]}
+    log(f"[big] {len(rows)} big-number rows from the real chain evaluated by Apalache: {ok} ok, {len(failing)} failing "
+        f"({wall:.0f}s); per stratum {strata}")
+    viol = []
+    if failing:
+        os.makedirs(os.path.join(ROOT, "replays"), exist_ok=True)
+        path = os.path.join(ROOT, "replays", f"{pid}-{tier}-seed{seed}.bigrows.json")
+        json.dump({"seed": seed, "n": n, "len": ln, "failing": [rows[i] for i in failing]}, open(path, "w"), indent=1)
+        r = rows[failing[0]]
+        clause = {"answer": "C07_Answer", "slash": "C07_Expire", "block": "C07_Expire", "settle": "C07_Charge",
+                  "withdraw": "C07_Withdraw", "deposit": "C07_Frame", "refunddep": "C07_Frame"}.get(r["kind"], "C07")
+        viol.append((path, f"big-number row violates {clause} (or an escrow identity C07_DepositEscrow / C07_RequestEscrow): " + _svc_text(r)))
+    return viol, cov
+
+
+def service_big_replay(check, pid, path, work, seed):
+    """Re-run the recorded driver run (same seed and sizes) on the real chain and evaluate again."""
+    meta = json.load(open(path))
+    vlib.build_harness("servicebig")
+    sub = os.path.join(work, "svcreplay")
+    os.makedirs(sub, exist_ok=True)
+    vlib.copy_specs(sub)
+    rows = _svc_rows(meta["seed"], meta["n"], meta["len"], os.path.join(sub, "svcrows.json"))
+    ok, failing, wall = _svc_eval(sub, rows)
+    if failing:
+        log("replay: " + _svc_text(rows[failing[0]]) + " violates the C07 clauses")
+        print(f"VIOLATION property={pid} replay={path}", flush=True)
+        return 1
+    log("replay: all rows satisfy the C07 clauses")
+    return 0
+
+
+if "C07" in props.PROPS:
+    props.PROPS["C07"].post.append(service_big)
+    props.PROPS["C07"].big_replay = service_big_replay
 
 PROPS = {}
 TEXT = {}
